@@ -1,7 +1,8 @@
 (* C07 — cached answers go only to the same question and client group, unchanged.
    Only statements; proofs live in Cache/CacheKeyProofs.v, Cache/NetlistProofs.v, Cache/CacheMemProofs.v. *)
 From Mos Require Import Base.Prelude Codec.Name Codec.Msg Codec.NameProofs Codec.WfProofs
-  Cache.CacheKey Cache.CacheKeyProofs Cache.Netlist Cache.NetlistProofs Cache.CacheMem Cache.CacheMemProofs.
+  Cache.CacheKey Cache.CacheKeyProofs Cache.Netlist Cache.NetlistProofs Cache.CacheMem Cache.CacheMemProofs
+  Cache.CacheBuf Cache.CacheBufProofs.
 
 (* ------------------------------------------------------------------ the key ------------------------------ *)
 (* The key the router builds (ToLowerName, then cacheKey = name ‖ 0 ‖ class ‖ type ‖ group label_cm) determines
@@ -112,10 +113,79 @@ Theorem C07_checked_key_stable : forall ls s, cm_run ls cm_init = Some s ->
 Proof. exact checked_key_stable. Qed.
 Print Assumptions C07_checked_key_stable.
 
+(* Round 2 - "unchanged ... under concurrent stores, lookups and evictions", at the granularity of this LTS: the copy of
+   the value is made AND finished while the goroutine holds the entry_cm's read lock.  In every reachable state a
+   goroutine that is copying (GCopy) or has copied and not yet unlocked (GUnlockHit) holds a read lock of the entry_cm,
+   no writer holds it (so releaseEntry cannot have cleared it nor a Store refilled it), the entry_cm still carries the
+   looked-up key, and its value is the value being copied / returned, stored under that key. *)
+Theorem C07_copy_under_lock : forall ls s, cm_run ls cm_init = Some s ->
+  forall t k e,
+    (thr s t = GCopy k e ->
+       In t (e_r (ents s e)) /\ e_w (ents s e) = None /\ e_k (ents s e) = k /\
+       exists v, e_v (ents s e) = Some v /\ In (CmStore k v) (trace s)) /\
+    (forall v, thr s t = GUnlockHit k e v ->
+       In t (e_r (ents s e)) /\ e_w (ents s e) = None /\ e_k (ents s e) = k /\
+       e_v (ents s e) = Some v /\ In (CmStore k v) (trace s)).
+Proof. exact copy_under_lock. Qed.
+Print Assumptions C07_copy_under_lock.
+
+(* the linearisation point of a hit is the RUnlock: the step that appends [CmHit k v] is taken from a state in which v
+   is the entry_cm's value under key k and the read lock is still held.  (Values are immutable lists in this model: the
+   pooled buffer UNDER the value - released by releaseEntry, handed to the next Store by the byte pool - is not
+   modelled; that a reader never copies from a buffer after dropping the lock is what this theorem pins in the
+   model, and kind cachechurn tests on the real code.  Tested, not proved: the byte pool itself.) *)
+Theorem C07_hit_is_entry_value : forall ls s, cm_run ls cm_init = Some s ->
+  forall t c k e v s', thr s t = GUnlockHit k e v -> cm_step s (LStep t c) = Some s' ->
+    trace s' = CmHit k v :: trace s /\
+    e_v (ents s e) = Some v /\ e_k (ents s e) = k /\ In t (e_r (ents s e)) /\ e_w (ents s e) = None.
+Proof. exact hit_is_entry_value. Qed.
+Print Assumptions C07_hit_is_entry_value.
+
 (* the quiescent histories replayed against the real MemoryCache are schedules of that system *)
 Theorem C07_big_refines_small : forall os s s', big_run os s = Some s' -> exists ls, cm_run ls s = Some s'.
 Proof. exact big_refines_small. Qed.
 Print Assumptions C07_big_refines_small.
+
+(* ------------------------------------------------------------------ the value buffers (round 2) ---------- *)
+(* Cache/CacheBuf.v: the layer UNDER the values of the system above.  A value is a slice (array, length) of a pooled
+   byte array; arrays keep their old octets when the pool hands them out again; GetBuf returns ANY free array; Store
+   fills its copy and Get copies ONE OCTET PER STEP; newCacheEntry and backend.Get return ARBITRARY entries;
+   releaseEntry and the caller's release of a result buffer happen at arbitrary points; any number of goroutines.
+   [cb_run false] is the code as it is: the copy is made under the entry's read lock.
+   In EVERY interleaving every hit returns, octet for octet, a value that some Store call supplied for the looked-up
+   key: never another key's value, never a torn mixture. *)
+Theorem C07_buffers_hit_unchanged : forall ls s, cb_run false ls cb_init = Some s ->
+  forall l1 k v l2, cb_trace s = l1 ++ CbHit k v :: l2 -> In (CbStore k v) l2.
+Proof. exact cb_hit_unchanged. Qed.
+Print Assumptions C07_buffers_hit_unchanged.
+
+(* while a goroutine copies, the array it reads from belongs to the entry whose read lock it holds (it is not in the free
+   list and in nobody else's hands), the entry still carries the looked-up key and that very slice, and nobody holds
+   the write lock; the destination array is the goroutine's own *)
+Theorem C07_copy_source_owned : forall ls s, cb_run false ls cb_init = Some s ->
+  forall t k e b n d i, cb_thr s t = CbGCopy k e b n d i ->
+    In t (cb_r (cb_ents s e)) /\ cb_w (cb_ents s e) = None /\ cb_k (cb_ents s e) = k /\
+    cb_v (cb_ents s e) = Some (b, n) /\ cb_own s b = CbEnt e /\ cb_own s d = CbThr t.
+Proof. exact cb_copy_source_owned. Qed.
+Print Assumptions C07_copy_source_owned.
+
+(* The variant that drops the read lock BEFORE the copy ("only grab the fields under the lock", [cb_run true]) is REFUTED:
+   after Store([1], [10;11]) two concrete schedules make Get([1]) return [20;21] - the value of key [2] - and [20;11] - a
+   torn mixture -; the same label lists are not schedules of the code as it is (releaseEntry's Lock waits for the
+   reader). *)
+Theorem C07_early_unlock_refuted :
+  cb_trace_of true cb_early_witness =
+    Some [CbHit [1] [20; 21]; CbStore [2] [20; 21]; CbStore [1] [10; 11]]%N /\
+  cb_trace_of true cb_early_witness_torn =
+    Some [CbHit [1] [20; 11]; CbStore [2] [20; 21]; CbStore [1] [10; 11]]%N /\
+  cb_trace_of false cb_early_witness = None /\ cb_trace_of false cb_early_witness_torn = None.
+Proof. exact cb_early_unlock_refuted. Qed.
+Print Assumptions C07_early_unlock_refuted.
+
+Theorem C07_early_unlock_breaks_property :
+  exists ls tr, cb_trace_of true ls = Some tr /\ ~ cb_hits_ok tr.
+Proof. exact cb_early_unlock_breaks_property. Qed.
+Print Assumptions C07_early_unlock_breaks_property.
 
 (* ------------------------------------------------------------------ repeat => hit ------------------------ *)
 (* FULL statement (not proved in this generality): in a cm_run without eviction of k and with ample capacity, after
@@ -195,6 +265,21 @@ Example C07_example_repeat :
   | None => False
   end.
 Proof. vm_compute. split; reflexivity. Qed.
+
+(* buffer level, the code as it is: Store([1],[10;11]) in array 0 / entry 0; a reader copies under the lock while a second
+   Store([2],[20;21]) takes a fresh array 2 and recycles ENTRY 0 (its Lock waits for the reader); the reader gets [10;11];
+   a later Get([1]) on entry 0 misses (key re-check), Get([2]) returns [20;21] *)
+Example C07_example_buffers :
+  cb_trace_of false
+    [ CbLStore [1] [10; 11] 0; CbLStep 0 0; CbLStep 0 0; CbLStep 0 0; CbLStep 0 0; CbLStep 0 0;
+      CbLGet [1] 0; CbLStep 1 0; CbLStep 1 0; CbLStep 1 1; CbLStep 1 0;
+      CbLStore [2] [20; 21] 2; CbLStep 2 0; CbLStep 2 0; CbLStep 2 0;
+      CbLStep 1 0; CbLStep 1 0;
+      CbLStep 2 0; CbLStep 2 0;
+      CbLGet [1] 0; CbLStep 3 0; CbLStep 3 0;
+      CbLGet [2] 0; CbLStep 4 0; CbLStep 4 0; CbLStep 4 3; CbLStep 4 0; CbLStep 4 0; CbLStep 4 0 ]%N =
+  Some [CbHit [2] [20; 21]; CbMiss [1]; CbHit [1] [10; 11]; CbStore [2] [20; 21]; CbStore [1] [10; 11]]%N.
+Proof. vm_compute. reflexivity. Qed.
 
 (* ------------------------------------------------------------------ end to end: the caching proxy ------------ *)
 (* Router/Cached.v composes the request path (rules, forward, EDNS and header fix-ups) with cacheCtl.Get/Store and
